@@ -265,6 +265,11 @@ def _malformed(drv, det, kind, x):
         a = a.reshape(1, -1) if a.ndim <= 1 else a
         wide = np.hstack([a, a[:, :1]])
         return lambda target: target.update(wide)
+    if kind == "setref-extra-column":
+        # a univariate batch detector must refuse a multi-column *reference* as well
+        a = np.asarray(x, dtype=object)
+        wide = np.hstack([a, a[:, :1]])
+        return lambda target: target.set_reference(wide)
     if kind == "renamed-columns":
         a = np.asarray(x, dtype=object)
         a = a.reshape(1, -1) if a.ndim <= 1 else a
@@ -339,6 +344,30 @@ def body_noharm(ctx, det, cfg, kind, k, use_df):
         ctx.prove(states_equal(ctx, vars(A), vars(B), skip=SKIP_KEYS), "state-equal-to-run-without-rejected-call")
         if det in ("ADWIN", "ADWINAccuracy"):
             ctx.prove(ctx.eq(A.mean(), B.mean()) if A._window_size else True, "state-equal-to-run-without-rejected-call")
+        ctx.witness("compared")
+
+
+def body_univariate_first_reference(ctx, cfg):
+    """a univariate batch detector refuses a multi-column reference even when nothing is established yet, and the refused
+    call leaves no trace"""
+    with DRIVERS["HDM"](ctx, **cfg) as drv:
+        A, B = drv.det, drv.twin()
+        R = drv.fresh_batch("ref")
+        a = np.asarray(R, dtype=object)
+        wide = np.hstack([a, a[:, :1]])
+        raised = False
+        try:
+            A.set_reference(wide)
+        except ValueError:
+            raised = True
+        ctx.prove(raised, "malformed-call-raises-ValueError")
+        A.set_reference(R)
+        B.set_reference(R)
+        for i in range(2):
+            x = drv.fresh_input(i)
+            drv.apply(A, x)
+            drv.apply(B, x)
+        ctx.prove(states_equal(ctx, vars(A), vars(B), skip=SKIP_KEYS), "state-equal-to-run-without-rejected-call")
         ctx.witness("compared")
 
 
@@ -451,6 +480,8 @@ def jobs(tier):
         kinds_b = [("one-row-batch", False), ("extra-column", False), ("renamed-columns", True)]
         if cfg.get("cls") != "CDBD":
             kinds_b += [("permuted-columns", True), ("dropped-column", True)]
+        else:
+            kinds_b += [("setref-extra-column", False)]
         for kind, use_df in kinds_b:
             for k in ks[:3]:
                 if det == "KdqTreeBatch" and k == 0 and kind != "one-row-batch":
@@ -459,6 +490,8 @@ def jobs(tier):
                     continue
                 out.append(Job(f"noharm-{name}-{kind}-df{int(use_df)}-k{k}", "checks.c14:body_noharm",
                                {"det": det, "cfg": cfg, "kind": kind, "k": k, "use_df": use_df}, expect=("compared",)))
+    out.append(Job("noharm-CDBD-first-reference-two-columns", "checks.c14:body_univariate_first_reference",
+                   {"cfg": {"cls": "CDBD", "detect_batch": 2, "statistic": "stdev"}}, expect=("compared",)))
     # (3) containers
     N = 2 if q else 3
     for det, cfg in stream_x + label[:3]:
